@@ -251,7 +251,7 @@ func getWorld(powers []int64) *world {
 	return w
 }
 
-func (w *world) n() int        { return len(w.powers) }
+func (w *world) n() int         { return len(w.powers) }
 func (w *world) idInvalid() int { return w.n() + 2 }
 func (w *world) nIDs() int      { return w.n() + 4 }
 
@@ -504,7 +504,17 @@ func newNet(line string) *netSim {
 	w := getWorld(powers)
 	hrs, wait, interval := get("hrs") == "1", get("wait") == "1", get("interval") == "1"
 	if line != netLine(w, faulty, hrs, wait, interval) {
-		return nil
+		// hand-written corpus cases may give a shorter proposer table (a prefix of the real one, at
+		// least 2n entries); the model then knows the proposers of the first rounds only
+		pl, ok := parseInts(get("proposers"))
+		if !ok || len(pl) < 2*len(powers) || len(pl) > len(w.proposers) {
+			return nil
+		}
+		short := *w
+		short.proposers = w.proposers[:len(pl)]
+		if line != netLine(&short, faulty, hrs, wait, interval) {
+			return nil
+		}
 	}
 	nt := &netSim{w: w, faulty: fm, faultyL: faulty, hrs: hrs, wait: wait, interval: interval, extra: map[int]types.BlockID{}}
 	nt.nodes = make([]*node, w.n())
@@ -959,6 +969,28 @@ func main() {
 		fmt.Println(netLine(getWorld(p), faulty, f[2] == "1", false, false))
 		return
 	}
+	// C01_RUN=file.ops prints the implementation's answers (and the oracle's findings) for a hand-written case
+	if e := os.Getenv("C01_RUN"); e != "" {
+		b, err := os.ReadFile(e)
+		if err != nil {
+			panic(err)
+		}
+		var c core.Case
+		for _, l := range strings.Split(string(b), "\n") {
+			if l = strings.TrimSpace(l); l != "" && !strings.HasPrefix(l, "//") {
+				c.Ops = append(c.Ops, l)
+			}
+		}
+		out := execCase(c)
+		for i, op := range c.Ops {
+			fmt.Println(op)
+			fmt.Println("    -> " + out[i])
+		}
+		for _, fd := range oracle(c, out) {
+			fmt.Println("// ORACLE", fd.Fingerprint, fd.Desc)
+		}
+		return
+	}
 	// C01_GEN="kind:seed" prints one generated case (ops and implementation outputs)
 	if e := os.Getenv("C01_GEN"); e != "" {
 		f := strings.Split(e, ":")
@@ -983,7 +1015,7 @@ func main() {
 		Exec:       execCase,
 		Oracle:     oracle,
 		NonTrivial: nonTrivial,
-		Rule: "a network at height 1 of 4..7 validators (6 power configurations incl. one validator above 2/3): every correct validator is a REAL consensus.State (kvstore app, in-memory stores, own FilePV or MockPV signer, recording ticker, never started) driven synchronously through handleMsg/handleTimeout; the network is the log of every signed message: each proposal/vote a real node signs is appended in signing order, faulty validators (played by the generator) append anything under their own index, anybody appends messages whose signature does not verify; `deliver` feeds any logged message to any correct node via any peer, any number of times, in any order or never; block bodies (own block of each validator, 2 valid blocks with a tx, 1 invalid block, 1 id nobody has a block for) and VoteSetMaj23 claims are handed over at will; timeouts fire only if the node scheduled them. Generated adaptively against the live nodes: seeded schedulers with loss/duplication/reordering/partitions, equivocating proposals and votes, round skipping, votes shown to one side only, forged messages, claims; happy paths to decisions in rounds 0..3; scripted lock-then-partition-then-competing-decision-then-heal scenarios; unjudged runs with >= 1/3 faulty power in which the faulty validators make two correct nodes decide differently (shows the oracle can fire). After every op the moved node's round, step, lock, valid block, proposal, parts, commit round, proposer, every vote set's sums/majority/buckets, every signature with its log position, scheduled timeout, decision and panic are compared with the Lean model Tmv.Net. Non-trivial = some correct node signed a block precommit or decided; distinct by hash of the op list",
+		Rule:       "a network at height 1 of 4..7 validators (6 power configurations incl. one validator above 2/3): every correct validator is a REAL consensus.State (kvstore app, in-memory stores, own FilePV or MockPV signer, recording ticker, never started) driven synchronously through handleMsg/handleTimeout; the network is the log of every signed message: each proposal/vote a real node signs is appended in signing order, faulty validators (played by the generator) append anything under their own index, anybody appends messages whose signature does not verify; `deliver` feeds any logged message to any correct node via any peer, any number of times, in any order or never; block bodies (own block of each validator, 2 valid blocks with a tx, 1 invalid block, 1 id nobody has a block for) and VoteSetMaj23 claims are handed over at will; timeouts fire only if the node scheduled them. Generated adaptively against the live nodes: seeded schedulers with loss/duplication/reordering/partitions, equivocating proposals and votes, round skipping, votes shown to one side only, forged messages, claims; happy paths to decisions in rounds 0..3; scripted lock-then-partition-then-competing-decision-then-heal scenarios; unjudged runs with >= 1/3 faulty power in which the faulty validators make two correct nodes decide differently (shows the oracle can fire). After every op the moved node's round, step, lock, valid block, proposal, parts, commit round, proposer, every vote set's sums/majority/buckets, every signature with its log position, scheduled timeout, decision and panic are compared with the Lean model Tmv.Net. Non-trivial = some correct node signed a block precommit or decided; distinct by hash of the op list",
 		Assumptions: []string{
 			"one height; a block id stands for (hash, part-set header) of a one-part block; block validity is that of the real BlockExecutor.ValidateBlock on the real blocks",
 			"signatures ideal: a logged message is re-signed at delivery time with the known key of its sender and a fixed timestamp (or with a corrupted signature when ok=0); a correct validator's key signs only inside its own node",
